@@ -6,6 +6,11 @@ ALL = ["C%02d" % i for i in range(1, 21)]
 
 # property -> dict(level, text, note, technique, engine, design_ref)
 CLAIMED = {
+  "C01": dict(level="exploration", engine="E1",
+    text="Bounded-exhaustive exploration: for every matcher (accepted patterns <= 3 tokens and cut patterns x 5 strictness, contextual patterns, kind matchers, rule cores to depth 2, utility graphs whose dependencies run through composite operators, relations, stopBy and nthChild.ofRule in all 3! registration orders) and every tree of token strings <= L: Node::find_all equals per-node brute force, every brute-force match has its kind inside potential_kinds, overlap-free traversal and replace_all equal the outermost filter, and CombinedScan (both modes, every subset <= 3 of a rule pool, both input orders) equals per-rule brute force. CLI layer: sg run/scan over a grid of (pattern, strictness, selector, files) compared with the library result on the same bytes, including files that lack the pattern's longest literal.",
+    note="Brute force uses the matcher's own match_node, so a kind cache that is wrong inside a composite (All/Any/RuleCore) is C05's subject (reference evaluator), not this check's; hash seeds owned via the getrandom shim.",
+    technique="bounded-exhaustive enumeration of (matcher, source) pairs; accelerated search differential against per-node brute force",
+    design_ref="DESIGN.md §3 C01"),
   "C02": dict(level="exploration", engine="E1",
     text="Bounded-exhaustive exploration in all 23 grammars: for every error-free node of every tree of token strings <= L (+ corpus), every way of replacing <= 2 (thorough 3) non-overlapping named descendants by distinct $V holes and every trailing run of named siblings by $$$V; whenever the cut pattern parses to the node's shape (checked on the public PatternNode tree) it must match the node at all five strictness levels and bind each hole to exactly the replaced extent. ~1.3e7 (cut, strictness) evaluations in the quick tier.",
     note="Cuts whose pattern text does not re-parse to the same shape are counted, not judged (the property's precondition); bindings are compared by byte extent.",
